@@ -11,6 +11,9 @@ from ..core import same, HarnessError
 ID = 'C03'
 TITLE = 'alignment onto the prescribed common index, values intact'
 LEVEL = 'exploration'
+TECHNIQUE = 'runtime monitoring: pure-Python alignment model (bisect as-of fills over original observations) with unique cell ids, identity checks for pass-through members, presync probe function'
+LEVEL_TEXT = 'Held on the nested containers explored for all join policies x fill methods; thorough runs ~300k containers. A check says held on K observed executions, never verified.'
+LEVEL_NOTE = 'Trusted: the alignment model; frames under a fill method are row-complete; tuples are not generated (df_index does not search them).'
 RULE = ('random nested containers (list/tuple/dict/Dict, depth<=3) of Series and 1-3 column DataFrames on a 12-day grid (and an intraday grid) so disjoint, nested, overlapping and empty '
         'indices all occur, NaN anywhere, mixed with scalars/strings/None/opaque objects; every join policy {ij, oj, lj, rj, explicit DatetimeIndex, explicit ts} x {None, ffill, bfill}; '
         'df_sync with column policies on multi-column frames; presync-decorated probe; separately collections of bare numpy arrays of different lengths; '
